@@ -295,7 +295,52 @@ def u_contour(root):
     return eng
 
 
+
+def u_contour_levels(root):
+    """ContoursProfiler._plot_contour_xy: a grid contour (what the scipy back end returns: z = sqrt(profiled cost rise), i.e. the distance in units of sigma - its
+    cells are compared with the closed form natively under C07) is drawn at the level z = sigma, not sigma^2; a point contour is drawn as given"""
+    eng = engine(root, ["kafe2/fit/tools/contours_profiler.py"], {}, [])
+    sig = z3.Real("contour_sigma")
+
+    class Contour(V):
+        def __init__(self, points):
+            self.points = points
+
+        def vattr(self, e, st, name):
+            if name == "sigma":
+                return VNum(sig)
+            if name == "xy_points":
+                return VTuple([VOpaque("xs"), VOpaque("ys")]) if self.points else VNone()
+            if name in ("grid_x", "grid_y"):
+                return VOpaque(name)
+            if name == "grid_z":
+                class Z(V):
+                    def vattr(self_, e_, st_, n_):
+                        return VOpaque("grid_z.T") if n_ == "T" else None
+                return Z()
+    eng.consts = {"ContoursProfiler": VLib("class:ContoursProfiler")}
+    for points in (False, True):
+        c = Contract("ContoursProfiler", "_plot_contour_xy")
+
+        def post(vw, points=points):
+            calls = [c_ for c_ in vw.post.ghost.get("ext_calls", ()) if c_[0] == "axes"]
+            if points:
+                return [("a point contour (iminuit) is drawn as the polygon it is", z3.BoolVal(len(calls) == 1 and calls[0][1] == "fill" and [getattr(a_, "tag", None) for a_ in calls[0][2]] == ["xs", "ys"]))]
+            ok = [c_[1] for c_ in calls] == ["contour", "contourf"] and all(isinstance(c_[3].get("levels"), VTuple) and len(c_[3]["levels"].items) == 2 for c_ in calls)
+            out = [("a grid contour is drawn as a line and as a filled region on the grid it came with (z transposed to matplotlib's row = y convention)",
+                    z3.BoolVal(ok and all([getattr(a_, "tag", None) for a_ in c_[2]] == ["grid_x", "grid_y", "grid_z.T"] for c_ in calls)))]
+            if ok:
+                for c_ in calls:
+                    lv = c_[3]["levels"].items
+                    out.append((f"{c_[1]}: from the minimum (z = 0) out to z = sigma - the grid is in units of sigma, so the s-sigma contour is the level s, not s^2", z3.And(lv[0].real() == 0, lv[1].real() == sig)))
+            return out
+        c.ensures.append(post)
+        eng.verify("ContoursProfiler", "_plot_contour_xy", None, lambda e, st, me_, points=points: (st.assume(sig > 0), {"target_axes": VExternal("axes", {}), "contour": Contour(points), "label": VStr("1 sigma"), "contour_color": VStr("C0")})[1],
+                   contract=c, tag=f"({'point' if points else 'grid'} contour)")
+    return eng
+
+
 def units(root):
     return [Unit("ConfidenceLevel helpers", u_helpers), Unit("ConfidenceLevel getters", u_getters), Unit("ConfidenceLevel setters", u_setters),
             Unit("ConfidenceLevel.ndim setter", u_ndim_setter), Unit("ConfidenceLevel.__init__", u_init), Unit("lemmas", u_lemmas),
-            Unit("MinimizerIMinuit.contour", u_contour)]
+            Unit("MinimizerIMinuit.contour", u_contour), Unit("ContoursProfiler._plot_contour_xy (level of a grid contour)", u_contour_levels)]
